@@ -29,7 +29,8 @@ func checkExternal(v map[string]any, p tree.Path) error {
 	if !ok {
 		return nil
 	}
-	if !b.(bool) {
+	if external, ok := b.(bool); !ok || !external {
+		// not (yet) a boolean, typically a string when interpolation is skipped: nothing to check
 		return nil
 	}
 
